@@ -308,7 +308,7 @@ def build():
     ub.gen_flag_consts_check(u, msg)
     ub.gen_bodies(u, msg, extra_ctors=True)
     u.extracted_fn(mod, "take_single_file", contract="""
-        ensures match files { Some(v) => if v@.len() == 1 { r is Some && r->Some_0.id@ == v@[0].id@ } else { r is None }, None => r is None } // [C09,C03]""")
+        ensures match files { Some(v) => if v@.len() == 1 { r is Some && r->Some_0.id@ == v@[0].id@ } else { r is None }, None => r is None } // [C09,C03,C06] exactly one descriptor, or none is taken""")
     u.raw("pub mod fe {\nuse super::*;\nuse vstd::prelude::*;\n")
     u.env("frontend.rs")
     u.env("frontend_specs.rs")
